@@ -13,7 +13,8 @@ class RewriteTrace:
     """context manager: wraps Evaluable.simplified's per-node callable, counts steps, records (obj, retval) pairs"""
 
     def __init__(self, bound, record=True, prop='simplified'):
-        self.bound = bound
+        from . import core
+        self.bound = bound * core.BUDGET_SCALE
         self.steps = 0
         self.fired = 0
         self.record = record
